@@ -85,6 +85,10 @@ def compose(layers, style, remove):
     if remove is not None and remove[0] == 0:
         acc = prog.STD("objectRemoveKey", acc, S(remove[1]))
     for i, L in enumerate(layers[1:], 1):
+        if remove is not None and remove[0] == i and len(remove) > 2:
+            # the key is removed from the *right* operand before it is added: fields of that name further left stay
+            acc = ("bin", "+", acc, prog.STD("objectRemoveKey", L, S(remove[1])))
+            continue
         acc = ("bin", "+", acc, L) if style == "+" else ("objext", acc, L)
         if remove is not None and remove[0] == i:
             acc = prog.STD("objectRemoveKey", acc, S(remove[1]))
@@ -131,6 +135,8 @@ def chains(tier, rng):
             i += 1
             yield ([(k0, "none"), (k1, "none")], styles[i % 2], None)
             yield ([(k0, "none"), (k1, "none")], styles[(i + 1) % 2], removes[1 + i % 4])
+            if i % 3 == 0:
+                yield ([(k0, "none"), (k1, "none")], "+", (1, NAMES[i % 2], "right"))
             if i % 5 == 0:
                 akinds = list(ASSERTS)
                 yield ([(k0, akinds[i % 5]), (k1, akinds[(i // 5) % 5])], "+", None)
@@ -151,7 +157,7 @@ def chains(tier, rng):
         for _ in range(6000):
             ls = [(tuple(rng.choice(ks) for _ in NAMES), rng.choice(["none", "none", "none", "true", "false", "self_a_is_number"]))
                   for _ in range(3)]
-            yield (ls, rng.choice(styles), rng.choice([None, None] + [(p, n) for p in range(3) for n in NAMES]))
+            yield (ls, rng.choice(styles), rng.choice([None, None] + [(p, n) for p in range(3) for n in NAMES] + [(p, n, "right") for p in (1, 2) for n in NAMES]))
     else:
         kr = KINDS_REDUCED
         for k0 in itertools.product(kr, repeat=2):
@@ -164,7 +170,7 @@ def chains(tier, rng):
             nl = rng.choice([3, 4, 5, 6])
             ls = [(tuple(rng.choice(ks) for _ in NAMES), rng.choice(["none", "none", "none", "true", "false", "a_in_self"]))
                   for _ in range(nl)]
-            yield (ls, rng.choice(styles), rng.choice([None, None] + [(p, n) for p in range(nl) for n in NAMES]))
+            yield (ls, rng.choice(styles), rng.choice([None, None] + [(p, n) for p in range(nl) for n in NAMES] + [(p, n, "right") for p in range(1, nl) for n in NAMES]))
 
 
 def build(spec):
